@@ -43,6 +43,8 @@ def policy_text(p, name='verif'):
     dhs = _map(p.get('dhs'))
     if dhs:
         lines.append('dh_modulus_sizes = %s' % json.dumps(dhs))
+    if p.get('client'):
+        lines.append('client policy = true')
     lines.append('allow_algorithm_subset_and_reordering = %s' % ('true' if p['subset'] else 'false'))
     lines.append('allow_larger_keys = %s' % ('true' if p['larger'] else 'false'))
     return '\n'.join(lines) + '\n'
@@ -190,6 +192,15 @@ def cli_cases(rnd, n):
         if rnd.random() < 0.2:
             pol['has'] = pol['has'] + ['banner']
             pol['banner'] = rnd.choice(['OpenSSH_9.6', 'OpenSSH_9.7'])
+        if i % 5 == 4:
+            # a client policy, audited with -c against a client; a client names its lists per direction and nothing is probed on it
+            pol['client'] = True
+            pol['hks'] = {}
+            peer['hks'] = {}
+            peer['client'] = True
+            if i % 10 == 9:
+                peer['enc_c2s'] = [x for x in REAL['enc'] if x not in peer['enc']][:2] or ['aes128-cbc']
+                peer['mac_c2s'] = list(reversed(REAL['mac']))[:2]
         cases.append({'id': i + 1, 'policy': pol, 'peer': peer})
     return cases
 
@@ -210,6 +221,14 @@ def cli_leg(ck, tier, rnd, n=None):
         srv = peers.ServerCfg(banner=banner_text(q['banner']).encode(), kexinit={'kex': q['kex'], 'key': q['key'], 'enc': q['enc'], 'mac': q['mac'], 'comp': q['comp']},
                               hostkeys=hk)
         for js in (False, True):
+            if q.get('client'):
+                kx = {'kex': q['kex'], 'key': q['key'], 'enc': q['enc'], 'mac': q['mac'], 'comp': q['comp']}
+                for f in ('enc_c2s', 'mac_c2s'):
+                    if f in q:
+                        kx[f] = q[f]
+                scs.append({'argv': (['-j'] if js else ['-n']) + ['--skip-rate-test', '-c', '-p', '2222', '-t', '5', '-P', '{tmp}/policy.txt'],
+                            'clients': [{'banner': banner_text(q['banner']).encode(), 'kexinit': kx}], 'files': {'policy.txt': policy_text(c['policy'])}})
+                continue
             scs.append({'argv': (['-j'] if js else ['-n']) + ['--skip-rate-test', '-P', '{tmp}/policy.txt', rating.HOST],
                         'servers': {(rating.HOST, 22): srv}, 'files': {'policy.txt': policy_text(c['policy'])}})
     results = runner.run_many(scs)
@@ -250,6 +269,47 @@ def cli_leg(ck, tier, rnd, n=None):
                 ck.nontrivial(('cli', c['id'], js))
     ck.notes.append('CLI leg: %d policy audits through -P (text and JSON): exit status 0 <=> passed, 3 <=> failed' % len(results))
     multi_target_leg(ck, cases, exp, rnd)
+    builtin_optional_leg(ck, tier)
+
+
+def builtin_optional_leg(ck, tier):
+    """Built-in policies: host keys are compared after removing the policy's optional host keys, so a server configured exactly as
+    the policy lists that additionally offers one of its optional host-key types (sized as the policy prescribes) passes."""
+    from checks import c05
+    tb = rating.tables()
+    scs, meta = [], []
+    for name, p in sorted(tb['policies'].items()):
+        if not p['server'] or not p.get('optional_host_keys'):
+            continue
+        opts = [t for t in p['optional_host_keys'] if t not in p['host_keys']]
+        for k, opt in enumerate(opts if tier == 'thorough' else opts[:2]):
+            key = list(p['host_keys'])
+            key.insert(k % (len(key) + 1), opt)
+            hks = {}
+            for t in key:
+                if t not in rating.DEFAULT_HK:
+                    continue            # a type the tool does not probe (sk-*): nothing is measured on it
+                v = p['hostkey_sizes'].get(t)
+                if v:
+                    hks[t] = {'size': v['hostkey_size'], 'catype': v.get('ca_key_type', ''), 'casize': v.get('ca_key_size', 0)}
+                elif t in rating.DEFAULT_HK:
+                    d = rating.DEFAULT_HK[t]
+                    hks[t] = {'size': d[0], 'catype': d[1], 'casize': d[2]}
+            q = {'banner': 'OpenSSH_9.6', 'comp': ['none'], 'kex': p['kex'], 'key': key, 'enc': p['ciphers'], 'mac': p['macs'], 'hks': hks, 'dhs': dict(p['dh_modulus_sizes'])}
+            for js in (False, True):
+                scs.append({'argv': (['-j'] if js else ['-n']) + ['--skip-rate-test', '-P', name, rating.HOST], 'servers': {(rating.HOST, 22): c05.server_of(q)}})
+                meta.append((name, opt, q, js))
+    for (name, opt, q, js), sc, r in zip(meta, scs, runner.run_many(scs)):
+        ck.evaluated()
+        if r.get('harness_error') or r.get('hang'):
+            raise common.Machinery('built-in policy run failed: %r' % (r.get('harness_error') or 'hang'))
+        ck.nontrivial(('builtin-optional', name, opt, js))
+        if r['exit'] != 0:
+            ck.violation('builtin-policy-optional-host-key view=%s' % ('json' if js else 'text'),
+                         'policy %r: a conforming server that also offers the optional host key %s gets status %s' % (name, opt, r['exit']),
+                         {'policy': name, 'optional_host_key': opt, 'peer': q, 'argv': sc['argv'], 'stdout': r['stdout'][-2000:]})
+        else:
+            ck.cov['traces_validated_against_impl'] += 1
 
 
 def multi_target_leg(ck, cases, exp, rnd):
@@ -257,7 +317,7 @@ def multi_target_leg(ck, cases, exp, rnd):
     (a fresh evaluation per target - the error accumulator of the policy must not carry over)."""
     from checks import multi
     groups = []
-    for c in cases[:40]:
+    for c in [x for x in cases if not x['policy'].get('client')][:40]:
         # the same policy against: its own peer, a peer violating the ciphers, a peer violating the MACs
         q0 = c['peer']
         q1 = dict(q0, enc=[x for x in REAL['enc'] if x not in c['policy']['enc']][:1] or ['aes128-cbc'])
